@@ -805,12 +805,17 @@ class CacheWorld(object):
       self.run_until(s.now + 1.0)
       w = s.th.get('W')
       widle = (w is None) or (not w.alive) or (w.wake is not None)
+      if self.lock_held():
+        widle = False        # stalled while holding a lock: an operation is in flight
       pend = any(c['pending'] for c in self.conns if not c['t'].disconnected)
       if widle and not pend and (self.wmode != 'writer' or not self.cache_has_data()
                                  or not s.alive('W')):
         if self.wmode == 'writer' and s.alive('W') and s.now < self.last_activity() + 3.0 + lag:
           continue
         break
+
+  def lock_held(self):
+    return any(l.owner is not None for l in self.s.locks)
 
   def cache_has_data(self):
     return any(self.cache.values())
@@ -875,6 +880,8 @@ class CacheWorld(object):
         return            # mid-pass: the counters of the batch in flight are not settled
     if getattr(self.w.db, 'inflight', None):
       return              # the writer sleeps inside a (slow) backend call: same thing
+    if self.lock_held():
+      return              # ... or is stalled while holding a lock (cache, statistics)
     calls = self.w.db.calls
     creates_ok = len([r for r in calls if r[2] == 'create' and r[5] == 'ok'])
     errors = len([r for r in calls if r[2] in ('create', 'write') and r[5] == 'raise'])
@@ -915,6 +922,13 @@ class CacheWorld(object):
   def check_conservation(self):
     """C02 (iv): drained ∪ cached == accepted history, exactly once -- follows
     from stepwise refinement; here the end-state cross-check."""
+    # the model is stepped when a critical section ends: compare only with the lock free
+    for _ in range(400):
+      if not self.lock_held():
+        break
+      self.run_until(self.s.now + 0.25)
+    if self.lock_held():
+      return
     real = {m: dict(v) for m, v in self.cache.items() if v}
     if real != self.model.d:
       self.ctx.violation('C02', 'final-state-mismatch', 'end',
